@@ -147,7 +147,7 @@ Qed.
 
 Theorem Ord_step s e : Ord s -> Ord (step s e).
 Proof.
-  intros O. destruct e as [k tmo| | | |how|r|o|o|o|dt|o|k tmo|o]; unfold step.
+  intros O. destruct e as [k tmo| | | |how|r|o|o|o|dt|o|o|k tmo|o]; unfold step.
   - (* Start *) destruct (next_msgid (last s) (inuse s)); try exact O.
     destruct (is_running s); eapply (Ord_app s); try exact O; reflexivity.
   - (* DrvOp *) destruct (is_running s); cbn [negb]; [|exact O].
@@ -215,6 +215,7 @@ Proof.
     destruct (o_status c); try apply vpres_refl; try destruct (fix20 (fx s)); destruct (is_running s); repeat vstrip.
   - (* Advance *) apply (Ord_vpres s); [exact O|]. repeat vstrip.
   - (* ViaHandle *) apply (Ord_vpres s); [exact O|]. repeat vstrip.
+  - (* DropCall *) apply (Ord_vpres s); [exact O|]. destruct (getop s o) as [c|] eqn:Ec; [destruct (o_status c) eqn:Est|]; repeat vstrip.
   - (* Alloc *) unfold alloc. destruct (next_msgid (last s) (inuse s)); try exact O. eapply (Ord_app s); try exact O; reflexivity.
   - (* Enqueue *) unfold enqueue. destruct (getop s o) as [c|] eqn:Ec; [|exact O]. apply (Ord_vpres s); [exact O|].
     destruct (o_status c); try apply vpres_refl. destruct (is_running s); repeat vstrip.
